@@ -24,7 +24,9 @@ EXPLANATION = (
     "emitted exactly once, nothing is emitted dead after an unconditional jump; (R7) every statement "
     "block of a construct is followed directly by its statement mark, before the exit jump, so that "
     "RESUME NEXT after an error in the last statement of a branch leaves the construct like the "
-    "equivalent IF chain does (shared with C05.R2).")
+    "equivalent IF chain does (shared with C05.R2); (R8) no user code that can overwrite a register "
+    "is emitted between the instruction that sets it and the instruction that reads it (dataflow over "
+    "the emitted code of each template; register reads / writes derived from the VM; shared with C15.R8).")
 NOT_DECIDED = [
     "the listed rewrite equivalences themselves (FOR = WHILE, SELECT = IF chain ...): relational "
     "properties of run-time behaviour",
@@ -394,3 +396,4 @@ def run(ctx):
     r6_template_reachability(ctx)
     from . import c05
     c05.r2_mark_after_block(ctx, "C02.R7")
+    c15.r8_register_liveness(ctx, "C02.R8")
